@@ -151,13 +151,17 @@ func (w *tlogWorld) checkAppend(c *core.Case) ([]core.Violation, bool) {
 
 func (w *tlogWorld) checkRecText(c *core.Case) ([]core.Violation, bool) {
 	var in struct {
-		Text []int
-		ID   int64
-		Rest []int
+		Text  []int
+		ID    int64
+		IDStr []int `json:"idstr"`
+		Rest  []int
 	}
 	var exp struct{ Valid, Lenient bool }
 	json.Unmarshal(c.In, &in)
 	json.Unmarshal(c.Exp, &exp)
+	if len(in.IDStr) > 0 {
+		in.ID, _ = strconv.ParseInt(concrete.Str(in.IDStr), 10, 64)
+	}
 	text := []byte(concrete.Str(in.Text))
 	rest := []byte(concrete.Str(in.Rest))
 	msg, err := tlog.FormatRecord(in.ID, text)
